@@ -102,6 +102,18 @@ pub fn select2<FA: VFuture, FB: VFuture>(a: FA, b: FB, Tracked(w): Tracked<&mut 
         !(r is Complete),
 { unimplemented!() }
 
+// futures::select_biased!: the same, except that of two ready futures the first always wins. Used in a loop over two sources, the second
+// source is never looked at while the first stays ready: it can be starved for ever (a stop request behind a busy stream, C13 / C04)
+#[verifier::external_body]
+pub fn select2_biased<FA: VFuture, FB: VFuture>(a: FA, b: FB, Tracked(w): Tracked<&mut World>) -> (r: Sel<FA::Output, FB::Output>)
+    requires a.pre(old(w)), b.pre(old(w)),
+        false,                                                                                 // @ob select.both-sources-get-their-turn-no-fixed-preference C13,C04,C03
+    ensures
+        r is A ==> exists|m: World| #![auto] a.done(old(w), &m, &r->A_0) && b.dropped(&m, final(w)) && a.ready_at() <= b.ready_at(),
+        r is B ==> exists|m: World| #![auto] b.done(old(w), &m, &r->B_0) && a.dropped(&m, final(w)) && b.ready_at() <= a.ready_at(),
+        !(r is Complete),
+{ unimplemented!() }
+
 // `fut.map(Ok)` (rule F2)
 pub struct MapOk<F> { pub inner: F }
 impl<F: VFuture> VFuture for MapOk<F> {
